@@ -9,6 +9,7 @@ from ..cfg import CFG, Node
 from ..model import FuncInfo, Repo
 from ..report import Report
 from ..util import AnalysisError, parent_map, call_name, chain, const_value, is_const, norm, short, walk_body, walk_local
+from .compiled import shape_of
 
 
 def _is_zero_bytes_times(e: ast.AST) -> bool:
@@ -107,6 +108,7 @@ def writer_interp(bb: str):
     return interp
 
 
+@shape_of("struct_rw")
 def flush_rule(repo: Repo, rep: Report, rid: str) -> None:
     rep.rule(rid, "a pending bit-field unit is flushed before anything else is emitted: the flush guard dominates every in-loop emit site and is "
                   "true whenever a unit is pending and the current field is not a bit-field; the tail padding is preceded by a flush; "
